@@ -87,3 +87,57 @@ Proof. vm_compute. reflexivity. Qed.
 Example C03_example_depth :
   msg_decode false ex_schema 2 0 (msg_encode ex_schema 0 ex_msg) = DErr DDepth.
 Proof. vm_compute. reflexivity. Qed.
+
+(* ---------- Tier T: the generated scalar coders (internal/impl/codec_gen.go) ----------
+   Gen/CodecGenTable.v is regenerated from codec_gen.go on every run (srcmodel_codecgen): one row per
+   size*/append*/consume* function, holding the source text that fills the holes of the function's
+   template.  Msg/CodecGenP.v gives that text its meaning ([enc_sem], [dec_sem], [zero_sem]).
+
+   C03_go_codecgen_classified: every one of the functions matches its template as a whole (nothing
+   Unclassified, packed branches repeat the same expressions, varints are read by the standard inlined
+   fast path, the pointer accessor is the kind's), every coder variable binds size/marshal/unmarshal
+   functions of one kind and of matching variants, and all 16 kinds are present in all three roles.
+
+   C03_go_codecgen_conversions_match_model: for every append* function what is handed to
+   protowire.Append* is [sk_enc] of the function's kind on the kind's whole domain (and the NoZero
+   variants skip exactly [msg_scalar_is_zero]); for every consume* function the wire type tested is
+   [sk_wt] of the kind and the value stored is [sk_dec] of the kind, for every wire value. *)
+Require Import PB.Gen.CodecGenTable PB.Msg.CodecGenP.
+
+Theorem C03_go_codecgen_classified :
+  (forall r, In r funcs -> row_classified r = true) /\ funcs <> [] /\
+  (forall e, In e coders -> check_coder e = true) /\ check_coverage = true.
+Proof. exact codecgen_classified. Qed.
+Print Assumptions C03_go_codecgen_classified.
+
+Theorem C03_go_codecgen_conversions_match_model :
+  forall r, In r funcs ->
+    (r_role r = role_append ->
+       exists sk wf c, row_kind r = Some sk /\ row_enc r = Some (wf, c) /\
+         (forall s, sk_ok sk s = true -> enc_sem wf c s = Some (sk_enc sk s)) /\
+         (r_variant r = variant_nozero -> exists zc, zero_meaning (r_zero r) = Some zc /\
+            forall s, sk_ok sk s = true -> zero_sem sk zc s = Some (msg_scalar_is_zero s))) /\
+    (r_role r = role_consume ->
+       exists sk wf c, row_kind r = Some sk /\ row_dec r = Some (wf, c) /\
+         wt_of (r_wt r) = Some (sk_wt sk) /\ wfn_wt wf = sk_wt sk /\
+         (forall w, dec_sem wf c w = sk_dec sk w)).
+Proof. exact codecgen_conversions_match_model. Qed.
+Print Assumptions C03_go_codecgen_conversions_match_model.
+
+(* non-vacuity: appendSint32 and consumeSint32 are rows of the table, of the roles the theorem speaks about,
+   and the model functions they are tied to are the zigzag ones *)
+Example C03_example_codecgen_rows :
+  (exists r, row_named fn_appendSint32 r /\ r_role r = role_append /\ row_kind r = Some SkSint32 /\
+             row_enc r = Some (WfVarint, EcZigZag)) /\
+  (exists r, row_named fn_consumeSint32 r /\ r_role r = role_consume /\ row_kind r = Some SkSint32 /\
+             row_dec r = Some (WfVarint, DcZigZag32)).
+Proof.
+  split.
+  - destruct (find_row fn_appendSint32) as [r|] eqn:E; [|vm_compute in E; discriminate E].
+    exists r. split; [apply find_row_named; exact E|]. vm_compute in E. inversion E. vm_compute. repeat split.
+  - destruct (find_row fn_consumeSint32) as [r|] eqn:E; [|vm_compute in E; discriminate E].
+    exists r. split; [apply find_row_named; exact E|]. vm_compute in E. inversion E. vm_compute. repeat split.
+Qed.
+Example C03_example_codecgen_sem :
+  enc_sem WfVarint EcZigZag (SZ (-1)) = Some (WVarint 1) /\ dec_sem WfVarint DcZigZag32 (WVarint 1) = Some (SZ (-1)).
+Proof. vm_compute. split; reflexivity. Qed.
